@@ -254,12 +254,24 @@ Qed.
 
 Example numpy_view_ex :
   let s := modify (SObj None
-     [([97], {| p_index := 0; p_default := None |}, SArr (AFixed 2) (SLeaf TInteger (Some (BInt IH)) false));
-      ([98], {| p_index := 0; p_default := None |}, SLeaf TString (Some (BStr 3)) false);
+     [([97], {| p_index := 0; p_default := None |}, SArr (AFixed 2) (SLeaf TInteger (Some (BInt IH)) 0%nat));
+      ([98], {| p_index := 0; p_default := None |}, SLeaf TString (Some (BStr 3)) 0%nat);
       ([99], {| p_index := 0; p_default := None |}, SObj None
-          [([120], {| p_index := 0; p_default := None |}, SLeaf TNumber (Some BDouble) false);
-           ([121], {| p_index := 0; p_default := None |}, SLeaf TNull (Some (BPad 2)) false)])]) in
+          [([120], {| p_index := 0; p_default := None |}, SLeaf TNumber (Some BDouble) 0%nat);
+           ([121], {| p_index := 0; p_default := None |}, SLeaf TNull (Some (BPad 2)) 0%nat)])]) in
   exists d, np_dtype s = NOk d /\ dt_itemsize d = 17 /\
             dt_layout d 0 = [(0, 2, 117); (2, 2, 117); (4, 3, 83); (7, 8, 102); (15, 2, 86)] /\
             flat_sizes s = Some [2; 2; 3; 8; 2].
 Proof. eexists. vm_compute. repeat split. Qed.
+
+(* ts.<table>_metadata: the view of table k has the struct layout of table k's own schema *)
+Theorem table_view_own_schema schemas k t d l :
+  nth_error schemas k = Some t -> table_view schemas k = NOk d ->
+  flat_sizes (modify (t_schema t)) = Some l ->
+  t_nullable t = false /\
+  offs (dt_layout d 0) = prefix_sums 0 l /\ sizes (dt_layout d 0) = l /\ dt_itemsize d = zsum l.
+Proof.
+  intros Hk Hv Hl. unfold table_view in Hv. rewrite Hk in Hv. unfold np_dtype_top, modify_top in Hv.
+  cbn [t_nullable t_schema] in Hv. destruct (t_nullable t); [discriminate|]. split; auto.
+  eapply numpy_offsets_are_struct_offsets; eauto.
+Qed.
